@@ -40,9 +40,19 @@ func (addrStream) Generate(rng *rand.Rand, n int, thorough bool) []Case {
 		}
 		_, e1 := netip.ParseAddr(strings.Trim(host, "[]"))
 		_, e2 := netip.ParseAddr(host)
-		ctx, cancel := context.WithTimeout(context.Background(), time.Second)
-		names, _ := net.DefaultResolver.LookupHost(ctx, host)
-		cancel()
+		// (the verdict goes into the case line: a lookup that ran into its time limit - a machine that stood still - is
+		// asked again, it must not be taken for "does not resolve")
+		var names []string
+		for attempt := 0; attempt < 3; attempt++ {
+			ctx, cancel := context.WithTimeout(context.Background(), 5*time.Second)
+			var err error
+			names, err = net.DefaultResolver.LookupHost(ctx, host)
+			timedOut := ctx.Err() != nil
+			cancel()
+			if err == nil || !timedOut {
+				break
+			}
+		}
 		cs = append(cs, Case{Line: fmt.Sprintf("addr %s pat=%d pah=%d res=%d pip=%d", hx([]byte(a)), b(e1 == nil), b(e2 == nil), b(len(names) > 0), b(net.ParseIP(host) != nil)), Kind: "addr"})
 	}
 	for _, h := range addrHosts {
